@@ -4,8 +4,10 @@ checks that read the touched files, revert. A VIOLATION (exit 1) on a refactorin
 import glob, json, os, re, subprocess, sys
 d = sys.argv[1]
 MAP = [('tarpc/src/client', ['C01', 'C03']), ('tarpc/src/server/limits/channels_per_key.rs', ['C13']), ('tarpc/src/server/request_hook', ['C19']),
-       ('tarpc/src/server', ['C08', 'C12']), ('tarpc/src/context.rs', ['C07']), ('tarpc/src/util/serde.rs', ['C15']), ('tarpc/src/util.rs', ['C16']),
-       ('tarpc/src/trace.rs', ['C18']), ('tarpc/src/client/stub', ['C20'])]
+       ('tarpc/src/server', ['C08', 'C12']), ('tarpc/src/context.rs', ['C07']), ('tarpc/src/util/serde.rs', ['C15']), ('tarpc/src/util.rs', ['C16', 'C11']),
+       ('tarpc/src/trace.rs', ['C18']), ('tarpc/src/client/stub', ['C20']),
+       ('tarpc/src/transport', ['C15']), ('tarpc/src/serde_transport.rs', ['C15']), ('tarpc/src/server/limits/requests_per_channel.rs', ['C12', 'C14']),
+       ('tarpc/src/server/in_flight_requests.rs', ['C08', 'C11'])]
 def sh(c, cwd=None):
     p = subprocess.run(c, shell=True, cwd=cwd, capture_output=True, text=True, timeout=3000); return p.returncode, p.stdout + p.stderr
 out = []
